@@ -494,6 +494,17 @@ func (g *genState) fillProps(c *chain) {
 			g.addBuiltinNamedProp(c)
 		}
 	}
+	// A child with five to seven properties over ancestors with a few: a
+	// list decoded element by element then has spare capacity (8) for all of
+	// the parent's, the case in which merging could reuse the child's storage.
+	if len(c.files) >= 2 && rng.Intn(5) == 0 {
+		f := c.files[0]
+		want := 5 + rng.Intn(3)
+		for k := 0; len(g.l.Poms[f].Props) < want; k++ {
+			g.l.Poms[f].Props = append(g.l.Poms[f].Props, [2]string{fmt.Sprintf("pad.%d", k), "x"})
+		}
+		g.tag("prop:child-padded")
+	}
 }
 
 // Property names that coincide with built-in expressions. Maven (asked: see
